@@ -57,7 +57,11 @@ func (vc *VC) readBase(st *State, a *Addr) string {
 func (vc *VC) writeBase(st *State, a *Addr, term string) {
 	switch a.Kind {
 	case aLocal:
-		st.locals[a.Cell] = vc.define(a.Cell.Name, vc.S.sortOf(a.Cell.T), term)
+		if vc.S.sortOf(a.Cell.T) == "Int" && len(term) < 80 && !strings.Contains(term, "select") {
+			st.locals[a.Cell] = term
+		} else {
+			st.locals[a.Cell] = vc.define(a.Cell.Name, vc.S.sortOf(a.Cell.T), term)
+		}
 	case aHeap:
 		hn := vc.cellHeapName(a.BaseT)
 		h := vc.heap(st, hn)
